@@ -106,6 +106,10 @@ func GenOraclePlan(p *PRNG, cfg Config, o OracleGenOpts) Plan {
 							op.E = 99 // wrong decimal
 						case 8:
 							op.M = int(SigNoSignerInfo)
+						case 9:
+							// the same report twice, the second time under the upper-case spelling
+							b.Ops = append(b.Ops, op)
+							op.C2 = 2
 						}
 					}
 					b.Ops = append(b.Ops, op)
